@@ -80,7 +80,9 @@ pub fn c01(a: &Args) {
         out.circuit(&export_nodes(&d), &circuit_line(&d));
         // the model loaders run on the text of the file and must produce the same array, node by node
         match file.fmt {
-            crate::gen::Fmt::D4 => out.query("d4load", &format!("{} | {}", file.n, file.lines.join(" / ")), &crate::persist_props::export_flat(&d)),
+            crate::gen::Fmt::D4 => { out.query("d4load", &format!("{} | {}", file.n, file.lines.join(" / ")), &crate::persist_props::export_flat(&d));
+                                     // do the hypotheses of the loader theorem hold for this text (and then its conclusion)?
+                                     out.query("d4conv", &format!("{} | {}", file.n, file.lines.join(" / ")), "ok"); }
             crate::gen::Fmt::C2d => out.query("c2dload", &format!("| {}", file.lines.join(" / ")), &crate::persist_props::export_flat(&d)),
         }
         if file.n <= 10 { out.query("tt", "", &tt.to_string01()); }
